@@ -102,6 +102,16 @@ class SimSocket(object):
 
     def connect(self, addr):
         self.net.charge()
+        net = self.net
+        if net.sync_fail_p:
+            # a connect that fails at once (no route to the network, address not available): the kernel answers the
+            # system call itself instead of EINPROGRESS - drawn when the destination cannot be reached right now
+            dst = net.port_to_host.get(int(addr[1]))
+            if dst is None or net.blocked is not None and net.blocked(self.host, dst):
+                if net.world.net_rng.random() < net.sync_fail_p:
+                    net.stat('connect_failed_synchronously')
+                    self.so_error = _errno.ENETUNREACH
+                    raise OSError(_errno.ENETUNREACH, 'Network is unreachable')
         self.state = 'connecting'
         self.addr = addr
         self.net.start_connect(self, addr)
@@ -374,6 +384,7 @@ class Net(object):
         self._free = {}
         self._next = {}
         self.poller_kind = 'sim'
+        self.sync_fail_p = 0.0
         self._pair = {}
         self.socks = {}
         self.listeners = {}      # (host, port) -> SimSocket
